@@ -322,15 +322,39 @@ func (w *walker) step() {
 	w.do(cs[len(cs)-1].a)
 }
 
+// finishFaulty finishes a reconcile whose writes may still fail or which may be aborted between two writes.
+func (w *walker) finishFaulty(c string, faulty bool) {
+	if !faulty {
+		w.finish(c)
+		return
+	}
+	for w.s.Pending(c) {
+		switch x := w.r.Intn(100); {
+		case x < 6:
+			w.do(sim.Action{Op: "abort", C: c})
+		default:
+			w.do(sim.Action{Op: "write", C: c, Inj: x < 22})
+		}
+	}
+}
+
 // drain drives the cluster to quiescence; returns the index of the first action of the final no-effect round.
+// The first rounds of two thirds of the histories still suffer transient faults (failed writes, aborts between two writes):
+// the tail of an experiment's life -- verdict, cleanup of the algorithm service, restart -- happens mostly here, and the
+// properties quantify over a finite number of faults at any point of it.
 func (w *walker) drain() *int {
 	s := w.s
 	for _, c := range []string{"exp", "sug", "trial"} {
 		w.finish(c)
 	}
 	rounds := 250
+	faultyRounds := 0
+	if w.r.Intn(3) > 0 {
+		faultyRounds = 1 + w.r.Intn(6)
+	}
 	seenStates := map[string]int{}
 	for round := 0; round < rounds; round++ {
+		faulty := round < faultyRounds
 		if s.Cfg.Max == nil && len(s.Project().Trials) >= 9 && !expCompleted(s.Project()) {
 			return nil // without maxTrialCount (and goal not reached) the experiment may run for ever
 		}
@@ -384,17 +408,20 @@ func (w *walker) drain() *int {
 		w.do(sim.Action{Op: "synctrials"})
 		for _, t := range s.Project().Trials {
 			w.do(sim.Action{Op: "begin", C: "trial", Key: t.Name})
-			w.finish("trial")
+			w.finishFaulty("trial", faulty)
 		}
 		w.do(sim.Action{Op: "begin", C: "exp"})
-		w.finish("exp")
+		w.finishFaulty("exp", faulty)
 		if s.CachedSuggestion() != nil {
 			w.do(sim.Action{Op: "begin", C: "sug", Resp: w.resp(0)})
-			w.finish("sug")
+			w.finishFaulty("sug", faulty)
 		}
 		after := s.Project()
-		if !envActed && after.Writes == before.Writes && sameStore(before, after) {
+		if !faulty && !envActed && after.Writes == before.Writes && sameStore(before, after) {
 			return &start
+		}
+		if faulty {
+			continue // a round with faults may leave the content as it was without being a cycle
 		}
 		// every round syncs all caches and runs every controller without faults, so a round is a function of the stored
 		// content: a content that comes back for the third time is a cycle (a hot loop), no need to go on for 250 rounds
@@ -544,6 +571,9 @@ func (world) Run(input any) kit.Case {
 		if a.Op == "begin" && a.C == "exp" && s.StaleCompletedExp() {
 			staleRestart = true
 		}
+		if ((a.Op == "write" && a.Inj) || a.Op == "abort") && s.Pending(a.C) && expCompleted(prev) {
+			stats["fault-after-verdict:"+a.C]++
+		}
 		s.Apply(a)
 		p := s.Project()
 		steps = append(steps, "("+a.Coq()+", "+p.CoqDelta(prev)+")")
@@ -634,7 +664,7 @@ func (world) Run(input any) kit.Case {
 	if s.Exists > 0 {
 		c.Tags = append(c.Tags, "already-exists")
 	}
-	for _, k := range []string{"fault", "abort", "earlystop", "raisemax"} {
+	for _, k := range []string{"fault", "abort", "earlystop", "raisemax", "fault-after-verdict:exp", "fault-after-verdict:sug", "fault-after-verdict:trial"} {
 		if stats[k] > 0 {
 			c.Tags = append(c.Tags, k)
 		}
